@@ -240,6 +240,11 @@ def classify(facts, sites, table, validators=(), regex_ok=True):
                 if callee is not None and always_some(callee):
                     s.status, s.reason = "auto", "callee %s returns Some/Ok on every path" % callee.name
                     continue
+        if s.kind == "index" and s.status == "unaudited" and len(t["args"]) > 1:
+            ro = fn.origin(t["args"][1])
+            if ro[0] == "agg" and ro[1].get("vname") == "RangeFull":
+                s.status, s.reason = "auto", "full-range slice `[..]` cannot be out of bounds"
+                continue
         if s.kind == "index" and s.status == "unaudited":
             g = str_index_guarded(fn, s, t)
             if g:
